@@ -40,7 +40,8 @@ BROKEN_SCALARS = ['2020-13-01', '2020-02-30', '25:00:00', '12:60:00', '12:00:61'
                   '1e999', '-1e999kg', 'C(-,1)', 'C(,)', 'C(1,)', 'C(1)', 'C(91,181)', '@', '@a "x', '`abc', '`\\q`', 'Bin(', 'Bin(a', 'Foo(1)', 'Foo("x"', '[1', '[1,,2]',
                   '{a:}', '{A:1}', '{a:1', '<<ver:"3.0"\na\n1\n', '<<>>', '1__', '_1', '--1', '1.', '.5', '1.e3', '1e', '1e+', 'NaNx', 'INFINITY', 'TT', 'NN', 'n',
                   '\x00', u'\ufffe', '', ' ', '\n', '1 2', '"a" "b"', '2020-01-01T00:00:00', '2020-01-01T00:00', '0000-00-00', '9999-99-99', '99:99:99',
-                  '12:34:56.', '12:34:56.1234567890123', '1' * 400, '"' + 'a' * 5000 + '"', '[' * 3 + ']' * 3, '{a:{b:{c:1}}}']
+                  '9999-12-31T23:59:59Z Brisbane', '0001-01-01T00:00:00Z New_York', '0001-01-01T00:00:00+14:00', '9999-12-31T23:59:59-12:00 UTC',
+                  '0001-01-01T00:00:00Z UTC', '9999-12-31T23:59:59.999999Z Chatham', '12:34:56.', '12:34:56.1234567890123', '1' * 400, '"' + 'a' * 5000 + '"', '[' * 3 + ']' * 3, '{a:{b:{c:1}}}']
 
 
 class Timeout(Exception):
@@ -206,7 +207,8 @@ def drop_unknown_zones(n):
         _ZONES = set(z.rsplit('/', 1)[-1] for z in pytz.all_timezones)
     k = n[0]
     if k == 'dt':
-        return n if n[3] in _ZONES else (n[0], n[1], n[2], None)
+        edge = not (-62100000000000000 < n[1] < 253370000000000000)   # within a year of 0001-01-01 / 9999-12-31: conversion may overflow
+        return n if (n[3] in _ZONES and not edge) else (n[0], n[1], n[2], None)
     if k == 'list':
         return ('list', tuple(drop_unknown_zones(x) for x in n[1]))
     if k == 'dict':
@@ -414,6 +416,31 @@ def env_and_semantic(st):
                 sys.stdout = saved
 
 
+def version_table_stress(st):
+    """History dependence of the version-keyed grammar tables: after many distinct (unofficial) version strings have been
+    seen, well-formed and malformed texts must still be judged exactly as before."""
+    import hszinc as hs
+    signal.signal(signal.SIGALRM, _alarm)
+    probes = ['ver:"2.0"\na\n1\n', 'ver:"3.0"\na\n[1,NA]\n', 'ver:"2.0"\na\n[1]\n', 'ver:"3.0"\na\n"x\n']
+    def judge_all(tag):
+        out = []
+        for text in probes:
+            out.append(judge_document(hs, text, st, 'version-table:' + tag, {'kind': 'doc', 'text': text}))
+        for s, ver in (('1', '2.0'), ('NA', '3.0'), ('"x', '3.0'), ('[1]', '2.0')):
+            judge_scalar(hs, s, ver, st, 'version-table:' + tag)
+        return out
+    before = judge_all('before')
+    for i in range(1, 70):
+        for v in ('3.0.%d' % i, '2.0.%d' % i, '%d.7' % (i + 3)):
+            text = 'ver:"%s"\na\n1\n' % v
+            judge_document(hs, text, st, 'version-table:fill', {'kind': 'doc', 'text': text})
+            judge_scalar(hs, '1', v, st, 'version-table:fill')
+    after = judge_all('after')
+    st.case(('version-table',), outcome=('version-table', tuple(before) == tuple(after)))
+    if before != after or before != ['accepted', 'accepted', 'rejected', 'rejected']:
+        st.fail('verdict-depends-on-versions-seen-earlier', {'origin': 'version-table'}, {'kind': 'version-table'}, {'before': before, 'after': after})
+
+
 def run(ctx):
     st = Stats()
     alpha_name = 'quick' if ctx.quick else 'full'
@@ -433,6 +460,7 @@ def run(ctx):
     for part in pmap(token_task, [(c,) for c in chunks(toks, ctx.jobs * 4)], ctx.jobs):
         st.merge(part)
     env_and_semantic(st)
+    version_table_stress(st)
     ex = st.c.get('executions', 0)
     st.c['states'] = ex + 1
     st.c['transitions'] = ex
@@ -458,6 +486,8 @@ def replay(case, st):
     signal.signal(signal.SIGALRM, _alarm)
     if case['kind'] == 'scalar':
         judge_scalar(hs, case['text'], case['ver'], st, 'replay')
+    elif case['kind'] == 'version-table':
+        version_table_stress(st)
     elif case['kind'] == 'env':
         saved = sys.stdout
         sys.stdout = {'sink': saved, 'strict-ascii': AsciiOut(), 'write-raises': BrokenOut()}[case['stdout']]
